@@ -52,6 +52,10 @@ type Evaluator struct {
 	alloc  int64
 	elems  []interface{}
 	taint  bool
+	// ElvisTwice evaluates the condition of `a ?: b` a second time when it is
+	// true, as the library does (recorded finding): used only to recognise
+	// that deviation, never as the reference.
+	ElvisTwice bool
 }
 
 func fail(class, f string, a ...interface{}) {
@@ -71,8 +75,18 @@ func unspec(f string, a ...interface{}) { panic(unspecified{fmt.Sprintf(f, a...)
 
 // Eval evaluates t over env (a struct or pointer to struct).
 func Eval(t *term.Term, env interface{}, budget int64) (res Result) {
+	return evalWith(t, env, budget, false)
+}
+
+// EvalElvisTwice is Eval with the library's double evaluation of the
+// condition of `a ?: b`.
+func EvalElvisTwice(t *term.Term, env interface{}, budget int64) (res Result) {
+	return evalWith(t, env, budget, true)
+}
+
+func evalWith(t *term.Term, env interface{}, budget int64, elvisTwice bool) (res Result) {
 	v := reflect.ValueOf(env)
-	ev := &Evaluator{Env: v, Budget: budget}
+	ev := &Evaluator{Env: v, Budget: budget, ElvisTwice: elvisTwice}
 	defer func() {
 		res.Alloc = ev.alloc
 		res.Tainted = ev.taint
@@ -234,6 +248,10 @@ func (ev *Evaluator) eval(t *term.Term) interface{} {
 			fail(FailType, "condition is %T", c)
 		}
 		if b {
+			if t.Sub[0] == t.Sub[1] && !ev.ElvisTwice {
+				// a ?: b: the condition is the first arm and is evaluated once
+				return c
+			}
 			return ev.eval(t.Sub[1])
 		}
 		return ev.eval(t.Sub[2])
